@@ -191,7 +191,7 @@ def run_check(prop, tier, seed):
     states = transitions = 0
     for (name, c, mod) in cfg["tlc"][tier]:
         # every configuration is time-boxed in the thorough tier (only the largest ever reach the limit) (a loaded machine must not turn them into tool errors)
-        r = vlib.model_check(name, c, mod, timeout=1200 if tier == "thorough" else 900, budget=(tier == "thorough"))
+        r = vlib.model_check(name, c, mod, timeout=600 if tier == "thorough" else 900, budget=(tier == "thorough"))
         tlc_results.append(r)
         states += r["states"]
         transitions += r["transitions"]
